@@ -136,6 +136,13 @@ def run(chk):
                 cases.append(("csread", [kr, head + data + bad + b"\n" + good + endl])); tags.append("malformed-checksum-line")
                 cases.append(("csread", [kr, head + b"\n".join(dl[:2] + [bad] + dl[2:]) + good + endl])); tags.append("malformed-checksum-line")
                 cases.append(("csread", [kr, (head + data + bad + endl).replace(b"\n", b"\r\n")])); tags.append("malformed-checksum-line")
+                # (r15) the armor reader ends the headers at a line of BLANKS and starts at the FIRST marker: a header end of one
+                # space or a tab, a second marker line behind the malformed line, a further block behind it
+                for blank in (b" ", b"\t", b" \t "):
+                    h2 = head[:-1] + blank + b"\n" if head.endswith(b"\n\n") else head
+                    cases.append(("csread", [kr, h2 + data + bad + endl])); tags.append("malformed-checksum-line")
+                cases.append(("csread", [kr, head + data + bad + b"\n-----END X-----BEGIN PGP SIGNATURE-----" + endl])); tags.append("malformed-checksum-line")
+                cases.append(("csread", [kr, head + data + bad + b"\n-----BEGIN PGP SIGNATURE-----\n\n" + data + good + endl])); tags.append("malformed-checksum-line")
     # splices of foreign text before, inside and after the armor
     foreign = b"Source: evil\nVersion: 9\n"
     body_at = s0.index(b"Source: hello")
